@@ -1,4 +1,992 @@
-//! c13 check (under construction)
-pub fn run(args: &vpc::Args) -> ! {
-    vpc::machinery_failure(&format!("property {} not implemented yet", args.prop))
+//! C13 - the simulated dataplane enforces the SCION forwarding rules and matches a reference router.
+//!
+//! Explicit-state exploration. A state is (AS, ingress interface, packet bytes) under a clock and a
+//! link-state assignment; a transition is ONE real `ScionNetworkSim` step (`iter::<SpecRoutingLogic>`
+//! `.next()`) executed in lock-step with R-router (`vpc::refrouter::step`) on the same bytes.
+//!
+//! Initial states per topology (R-topo enumerator + curated shapes), built from the AUTHENTIC hop
+//! fields of every R-seg segment (regular and peer hop fields, R-mac MACs with the per-AS keys the
+//! real topology is given too):
+//!   * piece = contiguous run (1..=4 hop fields) of one segment, optionally with the run's first
+//!     (construction order) hop replaced by one of that AS's peer hop fields; in either order; with
+//!     either ConsDir flag; Peering flag set/unset on peer pieces; SegID = the value that verifies
+//!     the first traversed hop without an ingress update, the value that verifies it after a
+//!     non-cons-dir ingress update, or a foreign value.
+//!   * level 1: every 1-piece packet; level 2: every ordered pair of pieces (or, on topologies
+//!     with more than `PAIR_FULL_LIMIT` pieces, every pair whose first piece some router carried to
+//!     its last hop field); level 3: every (a,b,c) whose prefix (a,b) some router carried to b's
+//!     last hop field (a router never looks beyond the hop field after the current one, so the
+//!     pruned packets behave like their prefix until they die).
+//!   * injected at every hop-field position h at the AS owning hop h with ingress 0 and with every
+//!     external interface of that AS, and with h = 0 at every other AS with ingress 0 (level 3:
+//!     positions 0, last hop of b, first hop of c); clock = after every segment timestamp; links up.
+//!   * every packet R-router delivers end to end ("valid") additionally: clock in
+//!     {ts-1, ts, exp-1, exp, exp+1} x link states {all up, each single link down, all subsets when
+//!     the topology has <= 4 links}; and every single-field corruption of every on-path state of it
+//!     (hop flags/exp/ingress/egress/MAC, info flags/rsv/SegID/timestamp, CurrINF, CurrHF, SegLens,
+//!     meta RSV, DstIA, SrcIA) x the five clocks (links up) and x each single link down (clock ts).
+//! Oracles: see `compare` in bridge.rs (per step: next AS, interface and bytes; verdict class) and
+//! `safety` below (reference-independent).
+use std::{
+    collections::{BTreeMap, BTreeSet, HashSet},
+    sync::Mutex,
+};
+
+use pocketscion::network::scion::topology::ScionTopology;
+use rayon::prelude::*;
+use vpc::{
+    Value, json,
+    refrouter::{self, Event, RejectClass, Step, Verdict},
+    refseg::{self, RSegment},
+    reftopo::{AsIdx, NeighbourRole, Topo},
+    reftopo_enum,
+    refwire::{self, RHeader, RHop, RInfo, RPath, RStdPath},
+};
+
+use crate::bridge::{self, Agreement, SimVerdict};
+
+pub const BASE_TS: u32 = 1_700_000_000;
+const PAIR_FULL_LIMIT: usize = 400;
+const CLOCK_NAMES: [&str; 5] = ["ts-1", "ts", "exp-1", "exp", "exp+1"];
+
+// ------------------------------------------------------------------------------------------
+// pieces and packets
+// ------------------------------------------------------------------------------------------
+
+#[derive(Clone, Debug)]
+pub struct Piece {
+    pub hops: Vec<RHop>,
+    pub owners: Vec<AsIdx>,
+    pub flags: u8,
+    pub seg_id: u16,
+    pub ts: u32,
+    /// (segment ordinal, first entry, last entry, reversed, peer index or -1, segid kind)
+    pub desc: (usize, usize, usize, bool, i32, &'static str),
 }
+impl Piece {
+    fn describe(&self) -> String {
+        let (o, i, j, rev, peer, k) = self.desc;
+        format!("seg{o}[{i}..={j}]{}{} C={} P={} segid={k}", if rev { " reversed" } else { "" }, if peer >= 0 { format!(" peer-hop#{peer}@{i}") } else { String::new() }, self.flags & 1, (self.flags >> 1) & 1)
+    }
+}
+
+fn regular_hop(e: &refseg::REntry) -> RHop {
+    RHop { flags: 0, exp_time: e.exp_time, cons_ingress: e.cons_ingress, cons_egress: e.cons_egress, mac: e.mac }
+}
+
+pub fn pieces_of(segs: &refseg::RSegs) -> Vec<Piece> {
+    let mut out: Vec<Piece> = vec![];
+    let mut seen: BTreeSet<Vec<u8>> = BTreeSet::new();
+    for s in segs.up_down.iter().chain(segs.core.iter()) {
+        let n = s.entries.len();
+        for i in 0..n {
+            for j in i..n.min(i + 4) {
+                // variants: -1 = regular hops only; k = entry i's k-th peer hop replaces hop i
+                let npeers = s.entries[i].peers.len() as i32;
+                for peer in -1..npeers {
+                    let mut cons: Vec<RHop> = s.entries[i..=j].iter().map(regular_hop).collect();
+                    if peer >= 0 {
+                        let p = &s.entries[i].peers[peer as usize];
+                        cons[0] = RHop { flags: 0, exp_time: p.exp_time, cons_ingress: p.local_if, cons_egress: p.cons_egress, mac: p.mac };
+                    }
+                    let owners_cons: Vec<AsIdx> = s.entries[i..=j].iter().map(|e| e.as_idx).collect();
+                    for rev in [false, true] {
+                        if rev && i == j {
+                            continue;
+                        }
+                        let (hops, owners): (Vec<RHop>, Vec<AsIdx>) = if rev { (cons.iter().rev().cloned().collect(), owners_cons.iter().rev().cloned().collect()) } else { (cons.clone(), owners_cons.clone()) };
+                        // index (construction order) of the first traversed hop
+                        let f = if rev { j } else { i };
+                        let first_is_peer = peer >= 0 && f == i;
+                        // SegID that verifies hop f as it stands
+                        let m0 = if first_is_peer { s.beta_at(f + 1) } else { s.beta_at(f) };
+                        // SegID that verifies hop f after the non-cons-dir ingress update (SegID ^= MAC_f[0..2])
+                        let m1 = m0 ^ u16::from_be_bytes([hops[0].mac[0], hops[0].mac[1]]);
+                        for c in [1u8, 0u8] {
+                            let pflags: &[u8] = if peer >= 0 { &[2, 0] } else { &[0] };
+                            for &pf in pflags {
+                                let mut cands: Vec<(u16, &'static str)> = vec![(m0, "match")];
+                                if c == 0 {
+                                    cands.push((m1, "match-after-ingress-update"));
+                                }
+                                cands.push((m0 ^ 0x8001, "foreign"));
+                                for (sid, kind) in cands {
+                                    let p = Piece { hops: hops.clone(), owners: owners.clone(), flags: c | pf, seg_id: sid, ts: s.timestamp, desc: (s.ordinal, i, j, rev, peer, kind) };
+                                    let mut key = vec![p.flags];
+                                    key.extend_from_slice(&p.seg_id.to_be_bytes());
+                                    key.extend_from_slice(&p.ts.to_be_bytes());
+                                    for h in &p.hops {
+                                        key.extend_from_slice(&h.to_bytes());
+                                    }
+                                    if seen.insert(key) {
+                                        out.push(p);
+                                    }
+                                }
+                            }
+                        }
+                    }
+                }
+            }
+        }
+    }
+    out
+}
+
+/// A SCION/UDP packet carrying the given pieces as segments. SrcIA = owner of the first hop,
+/// DstIA = owner of the last hop.
+pub fn build_packet(t: &Topo, pieces: &[&Piece]) -> Vec<u8> {
+    let mut path = RStdPath { curr_inf: 0, curr_hf: 0, rsv: 0, seg_len: [0; 3], infos: vec![], hops: vec![] };
+    for (k, p) in pieces.iter().enumerate() {
+        path.seg_len[k] = p.hops.len() as u8;
+        path.infos.push(RInfo { flags: p.flags, rsv: 0, seg_id: p.seg_id, timestamp: p.ts });
+        path.hops.extend(p.hops.iter().cloned());
+    }
+    let src = pieces[0].owners[0];
+    let last = pieces[pieces.len() - 1];
+    let dst = last.owners[last.owners.len() - 1];
+    let mut l4 = vec![0x9c, 0x40, 0x9c, 0x41, 0, 12, 0, 0, b'v', b'p', b'1', b'3'];
+    let hdr = RHeader {
+        version: 0,
+        traffic_class: 0,
+        flow_id: 1,
+        next_hdr: refwire::PROTO_UDP,
+        hdr_len: 0,
+        payload_len: l4.len() as u16,
+        path_type: refwire::PT_SCION,
+        dst_tl: 0,
+        src_tl: 0,
+        rsv: 0,
+        dst_ia: t.ases[dst].ia(),
+        src_ia: t.ases[src].ia(),
+        dst_host: vec![10, 0, 0, 2],
+        src_host: vec![10, 0, 0, 1],
+        path: RPath::Std(path),
+    }
+    .with_natural_hdr_len();
+    let ck = refwire::checksum(hdr.dst_ia, hdr.src_ia, &hdr.dst_host, &hdr.src_host, refwire::PROTO_UDP, &l4);
+    l4[6..8].copy_from_slice(&ck.to_be_bytes());
+    let mut b = hdr.to_bytes_raw();
+    b.extend_from_slice(&l4);
+    b
+}
+
+const PATH_OFF: usize = 12 + 16 + 4 + 4;
+
+fn set_pointer(pkt: &mut [u8], curr_inf: u8, curr_hf: u8) {
+    pkt[PATH_OFF] = (curr_inf << 6) | (curr_hf & 63);
+}
+fn parse_path(pkt: &[u8]) -> Option<RStdPath> {
+    match RHeader::parse(pkt).ok()?.0.path {
+        RPath::Std(p) => Some(p),
+        _ => None,
+    }
+}
+
+// ------------------------------------------------------------------------------------------
+// lock-step walk
+// ------------------------------------------------------------------------------------------
+
+#[derive(Default)]
+pub struct Loc {
+    pub outcomes: BTreeMap<String, u64>,
+    pub transitions: u64,
+    pub walks: u64,
+    pub states: HashSet<u64>,
+}
+impl Loc {
+    fn bump(&mut self, k: String) {
+        *self.outcomes.entry(k).or_default() += 1;
+    }
+    fn merge(&mut self, o: Loc) {
+        for (k, v) in o.outcomes {
+            *self.outcomes.entry(k).or_default() += v;
+        }
+        self.transitions += o.transitions;
+        self.walks += o.walks;
+        self.states.extend(o.states);
+    }
+}
+
+pub struct Env<'a> {
+    pub run: &'a vpc::Run,
+    pub t: &'a Topo,
+    pub real: &'a ScionTopology,
+    pub down: &'a [bool],
+    pub now: u32,
+    pub verbose: bool,
+}
+
+#[derive(Clone, Debug, Default)]
+pub struct WalkOut {
+    /// some visited state pointed at the packet's last hop field
+    pub reached_last_hop: bool,
+    /// R-router delivered the packet
+    pub r_delivered_at: Option<AsIdx>,
+    pub r_final: String,
+    pub steps: usize,
+    /// (AS, ingress, bytes) of every state on R-router's walk
+    pub r_states: Vec<(AsIdx, u16, Vec<u8>)>,
+    /// kinds of R-router steps seen: "xover", "peering"
+    pub saw_xover: bool,
+    pub saw_peering: bool,
+    pub segments: usize,
+}
+
+fn state_key(env: &Env, at: AsIdx, ingress: u16, bytes: &[u8]) -> u64 {
+    let mut h = vpc::fnv64(bytes);
+    h ^= (at as u64).wrapping_mul(0x9E3779B97F4A7C15) ^ ((ingress as u64) << 40) ^ ((env.now as u64) << 8);
+    let mut m: u64 = 0;
+    for (i, d) in env.down.iter().enumerate() {
+        if *d {
+            m |= 1 << (i % 64);
+        }
+    }
+    h ^ m.wrapping_mul(0xD6E8FEB86659FD93)
+}
+
+fn down_list(down: &[bool]) -> Vec<usize> {
+    down.iter().enumerate().filter(|(_, d)| **d).map(|(i, _)| i).collect()
+}
+
+/// Narrow canonical class of a divergence, from what is visible at the diverging state.
+fn classify(env: &Env, at: AsIdx, ingress: u16, bytes: &[u8], r: &Step, sim: &SimVerdict, why: &str) -> String {
+    let Some(p) = parse_path(bytes) else {
+        return format!("unparsable-for-reference:{}", sim.class_name());
+    };
+    let ch = p.curr_hf as usize;
+    let ci = p.curr_inf as usize;
+    let ok_ptr = ch < p.hops.len() && p.seg_of(ch) == Some(ci);
+    if !ok_ptr {
+        return format!("bad-pointer:ref={}:sim={}", r.verdict.class_name(), sim.class_name());
+    }
+    let at_seg_end = p.seg_of(ch + 1) != Some(ci) && ch + 1 < p.hops.len();
+    let cur_p = p.infos[ci].peering();
+    let next_p = at_seg_end && p.infos.get(ci + 1).map(|i| i.peering()).unwrap_or(false);
+    let cons = p.infos[ci].cons_dir();
+    let hop = &p.hops[ch];
+    let t_in = if cons { hop.cons_ingress } else { hop.cons_egress };
+    if let SimVerdict::Panic(m) = sim {
+        return format!("panic@{}", m.rsplit(" @ ").next().unwrap_or("?"));
+    }
+    if cur_p || next_p {
+        // pocketscion has no peering support: SegID is updated on the peering hop, the peering hop is
+        // handled as an ordinary cross-over
+        let single = p.seg_range(ci).len() == 1 || (at_seg_end && p.seg_range(ci + 1).len() == 1);
+        return if single && matches!(sim, SimVerdict::Drop) && r.verdict.is_accept() { "peering-flag-unsupported:one-hop-segment-dropped".into() } else { "peering-flag-unsupported".into() };
+    }
+    let seg_len_one = p.seg_range(ci).len() == 1;
+    match (&r.verdict, sim) {
+        (Verdict::Forward { .. }, SimVerdict::Param { code, .. }) if r.xover && (*code == 49 || *code == 50) => {
+            let nh = &p.hops[ch + 1];
+            let ncons = p.infos[ci + 1].cons_dir();
+            let n_in = if ncons { nh.cons_ingress } else { nh.cons_egress };
+            if n_in != 0 && n_in != ingress {
+                return "shortcut-xover-second-hop-ingress-check".into();
+            }
+            format!("xover-interface-error:sim={}", sim.class_name())
+        }
+        (Verdict::Reject { class: RejectClass::BadIngress, .. }, s) if s.is_accept() && t_in == 0 && ingress != 0 => "zero-ingress-hop-accepted-on-external-interface".into(),
+        (Verdict::Reject { class: RejectClass::BadSegmentChange, .. }, s) if s.is_accept() && ingress == 0 => "segment-change-from-inside-as-accepted".into(),
+        (Verdict::Reject { class: RejectClass::BadSegmentChange, .. }, s) if s.is_accept() => {
+            // which pair did the simulator let through?
+            let ir = env.t.neighbour(at, ingress).map(|n| n.2);
+            let nh = &p.hops[ch + 1];
+            let ncons = p.infos[ci + 1].cons_dir();
+            let eg = if ncons { nh.cons_egress } else { nh.cons_ingress };
+            let er = env.t.neighbour(at, eg).map(|n| n.2);
+            let name = |r: Option<NeighbourRole>| match r {
+                Some(NeighbourRole::Core) => "core",
+                Some(NeighbourRole::Parent) => "parent",
+                Some(NeighbourRole::Child) => "child",
+                Some(NeighbourRole::Peer) => "peer",
+                None => "none",
+            };
+            format!("segment-change-accepted:from-{}-to-{}", name(ir), name(er))
+        }
+        (rv, s) if seg_len_one && matches!(s, SimVerdict::Drop) => format!("one-hop-segment-dropped:ref={}", rv.class_name()),
+        (rv, s) => {
+            let mut tags = vec![];
+            if r.xover {
+                tags.push("xover");
+            }
+            if ingress == 0 {
+                tags.push("from-inside");
+            }
+            if why.contains("bytes") {
+                tags.push("bytes");
+            }
+            format!("ref={}:sim={}{}{}", rv.class_name(), s.class_name(), if tags.is_empty() { "" } else { ":" }, tags.join("+"))
+        }
+    }
+}
+
+/// Lock-step walk from one initial state. `origin` describes how the packet was made (for the
+/// witness).
+pub fn walk(env: &Env, loc: &mut Loc, start: AsIdx, ingress: u16, pkt: &[u8], origin: &dyn Fn() -> Value, want_states: bool) -> WalkOut {
+    let mut out = WalkOut::default();
+    loc.walks += 1;
+    let total_hops = parse_path(pkt).map(|p| p.hops.len()).unwrap_or(0);
+    out.segments = parse_path(pkt).map(|p| p.num_inf()).unwrap_or(0);
+    let dst_ia = RHeader::parse(pkt).map(|h| h.0.dst_ia).ok();
+    let (mut at, mut ing, mut bytes) = (start, ingress, pkt.to_vec());
+    let down = env.down;
+    let link_down = |li: usize| down[li];
+    let mut step_no = 0usize;
+    // a packet can be handled at most once per hop field; +2 lets an over-long walk show itself
+    let bound = total_hops.max(1) + 2;
+    loop {
+        if step_no >= bound {
+            env.run.violation("walk-longer-than-hop-field-count", &format!("{step_no} AS steps on a path of {total_hops} hop fields"), witness(env, start, ingress, pkt, step_no, at, ing, &bytes, None, None, origin));
+            break;
+        }
+        loc.states.insert(state_key(env, at, ing, &bytes));
+        if let Some(p) = parse_path(&bytes) {
+            if p.curr_hf as usize + 1 == p.hops.len() {
+                out.reached_last_hop = true;
+            }
+        }
+        if want_states {
+            out.r_states.push((at, ing, bytes.clone()));
+        }
+        // --- the two routers on the same state
+        let r = refrouter::step(env.t, at, ing, &bytes, env.now, &link_down);
+        let mut sim_bytes = bytes.clone();
+        let sim = bridge::sim_step(env.real, bridge::ia_of(env.t, at), ing, &mut sim_bytes, env.now);
+        loc.transitions += 1;
+        step_no += 1;
+        out.saw_xover |= r.xover;
+        out.saw_peering |= r.peering;
+        let egress_hint = egress_of(&bytes, &r);
+        let agree = bridge::compare(env.t, at, &r, &sim, &sim_bytes, egress_hint);
+        loc.bump(format!("ref:{}", r.verdict.class_name()));
+        loc.bump(format!("sim:{}", sim.class_name()));
+        if env.verbose {
+            println!("  step {step_no}: AS{at} ({}) ingress {ing}\n    packet   {}\n    reference: {:?} events={:?} dontcare={:?}\n    simulator: {:?}\n    -> {:?}", ia_str(env.t, at), vpc::hex(&bytes), short(&r.verdict), r.events, r.dontcare, short_sim(&sim), agree);
+        }
+        // --- reference-independent safety of the simulator's action
+        safety(env, loc, at, ing, &bytes, &sim, dst_ia, start, ingress, pkt, step_no, origin);
+        match &agree {
+            Agreement::Same => loc.bump("cmp:same".into()),
+            Agreement::Allowed(w) => loc.bump(format!("cmp:allowed:{w}")),
+            Agreement::Diverge(why) => {
+                let class = classify(env, at, ing, &bytes, &r, &sim, why);
+                loc.bump(format!("cmp:diverge:{class}"));
+                env.run.violation(&class, &format!("simulator and reference router disagree at AS{at} ({}) ingress {ing}: {why}", ia_str(env.t, at)), witness(env, start, ingress, pkt, step_no, at, ing, &bytes, Some(&r), Some(&sim), origin));
+            }
+        }
+        // --- successor
+        match (&r.verdict, &sim) {
+            (Verdict::Forward { next_as, next_if, packet, .. }, _) => {
+                // follow the reference (on agreement both are in the same state)
+                at = *next_as;
+                ing = *next_if;
+                bytes = packet.clone();
+            }
+            (rv, SimVerdict::Forward { next_ia, next_if, .. }) => {
+                // only the simulator forwards: follow it to see how far the packet gets
+                out.r_final = rv.class_name();
+                if let Verdict::Delivered { at, .. } = rv {
+                    out.r_delivered_at = Some(*at);
+                }
+                match env.t.as_by_ia(*next_ia) {
+                    Some(n) => {
+                        at = n;
+                        ing = *next_if;
+                        bytes = sim_bytes;
+                    }
+                    None => break,
+                }
+                continue;
+            }
+            (rv, _) => {
+                out.r_final = rv.class_name();
+                if let Verdict::Delivered { at, .. } = rv {
+                    out.r_delivered_at = Some(*at);
+                }
+                break;
+            }
+        }
+    }
+    out.steps = step_no;
+    out
+}
+
+fn egress_of(bytes: &[u8], r: &Step) -> Option<u16> {
+    let p = parse_path(bytes)?;
+    let mut h = p.curr_hf as usize;
+    let mut i = p.curr_inf as usize;
+    if r.xover {
+        h += 1;
+        i += 1;
+    }
+    let hop = p.hops.get(h)?;
+    let inf = p.infos.get(i)?;
+    Some(if inf.cons_dir() { hop.cons_egress } else { hop.cons_ingress })
+}
+
+fn ia_str(t: &Topo, a: AsIdx) -> String {
+    let n = &t.ases[a];
+    format!("{}-{:x}:{:x}:{:x}{}", n.isd, (n.asn >> 32) & 0xffff, (n.asn >> 16) & 0xffff, n.asn & 0xffff, if n.core { " core" } else { "" })
+}
+fn short(v: &Verdict) -> String {
+    match v {
+        Verdict::Forward { egress_if, next_as, next_if, .. } => format!("Forward(egress {egress_if} -> AS{next_as}#{next_if})"),
+        Verdict::Delivered { at, .. } => format!("Delivered(AS{at})"),
+        o => format!("{o:?}"),
+    }
+}
+fn short_sim(v: &SimVerdict) -> String {
+    match v {
+        SimVerdict::Param { code, .. } => format!("SCMP ParameterProblem({} {})", code, bridge::param_name(*code)),
+        SimVerdict::IfDown { ia, if_id, .. } => format!("SCMP ExternalInterfaceDown({ia:x}#{if_id})"),
+        o => format!("{o:?}"),
+    }
+}
+
+#[allow(clippy::too_many_arguments)]
+fn witness(env: &Env, start: AsIdx, ingress: u16, pkt: &[u8], step_no: usize, at: AsIdx, ing: u16, bytes: &[u8], r: Option<&Step>, sim: Option<&SimVerdict>, origin: &dyn Fn() -> Value) -> Value {
+    json!({
+        "topology": bridge::topo_to_json(env.t),
+        "inject": {"as": start, "ia": ia_str(env.t, start), "ingress": ingress},
+        "packet": vpc::hex(pkt),
+        "now": env.now,
+        "links_down": down_list(env.down),
+        "origin": origin(),
+        "diverged_at": {"step": step_no, "as": at, "ia": ia_str(env.t, at), "ingress": ing, "packet": vpc::hex(bytes)},
+        "reference": r.map(|r| json!({"verdict": short(&r.verdict), "events": format!("{:?}", r.events), "dontcare": r.dontcare, "notes": r.notes, "xover": r.xover, "peering": r.peering})),
+        "simulator": sim.map(short_sim),
+    })
+}
+
+#[allow(clippy::too_many_arguments)]
+fn safety(env: &Env, loc: &mut Loc, at: AsIdx, ing: u16, bytes: &[u8], sim: &SimVerdict, dst_ia: Option<u64>, start: AsIdx, ingress: u16, pkt: &[u8], step_no: usize, origin: &dyn Fn() -> Value) {
+    match sim {
+        SimVerdict::Delivered => {
+            let here = env.t.ases[at].ia();
+            let dst_now = RHeader::parse(bytes).map(|h| h.0.dst_ia).ok().or(dst_ia);
+            if dst_now != Some(here) {
+                env.run.violation("safety:delivered-outside-destination-as", &format!("simulator delivers locally at AS{at} but DstIA is {:x?}", dst_now), witness(env, start, ingress, pkt, step_no, at, ing, bytes, None, Some(sim), origin));
+            }
+        }
+        SimVerdict::Forward { egress_if, next_ia, next_if } => match env.t.neighbour(at, *egress_if) {
+            None => env.run.violation("safety:forward-over-nonexistent-interface", &format!("simulator forwards over interface {egress_if} which AS{at} does not have"), witness(env, start, ingress, pkt, step_no, at, ing, bytes, None, Some(sim), origin)),
+            Some((n, nif, _, li)) => {
+                if env.down[li] {
+                    env.run.violation("safety:forward-over-down-link", &format!("simulator forwards over link {li} which is down"), witness(env, start, ingress, pkt, step_no, at, ing, bytes, None, Some(sim), origin));
+                }
+                if env.t.ases[n].ia() != *next_ia || nif != *next_if {
+                    env.run.violation("safety:forward-arrives-at-wrong-neighbour", "next (AS, interface) is not the other end of the egress link", witness(env, start, ingress, pkt, step_no, at, ing, bytes, None, Some(sim), origin));
+                }
+            }
+        },
+        SimVerdict::Panic(m) => {
+            let class = format!("panic@{}", m.rsplit(" @ ").next().unwrap_or("?"));
+            env.run.violation(&class, &format!("the simulator step panicked: {m}"), witness(env, start, ingress, pkt, step_no, at, ing, bytes, None, Some(sim), origin));
+        }
+        SimVerdict::IterError(e) => {
+            env.run.violation("simulator-internal-error", &format!("ScionNetworkSim step returned an error instead of a verdict: {e}"), witness(env, start, ingress, pkt, step_no, at, ing, bytes, None, Some(sim), origin));
+        }
+        _ => {}
+    }
+    // observation only (not part of the property text): does an SCMP error quote the packet as received?
+    if let Some(q) = sim.quoted() {
+        let n = q.len().min(bytes.len());
+        if q[..n] == bytes[..n] {
+            loc.bump("obs:scmp-error-quotes-packet-as-received".into());
+        } else {
+            let ptr_moved = q.len() > PATH_OFF && q[PATH_OFF] != bytes[PATH_OFF];
+            loc.bump(if ptr_moved { "obs:scmp-error-quotes-packet-with-advanced-pointer".into() } else { "obs:scmp-error-quotes-packet-with-updated-segid-or-flags".into() });
+        }
+    }
+}
+
+// ------------------------------------------------------------------------------------------
+// corruptions
+// ------------------------------------------------------------------------------------------
+
+/// Every single-field corruption of `pkt` (name, bytes).
+fn corruptions(t: &Topo, pkt: &[u8]) -> Vec<(String, Vec<u8>)> {
+    let mut out = vec![];
+    let Some(p) = parse_path(pkt) else { return out };
+    let ninf = p.num_inf();
+    let nh = p.hops.len();
+    let mut put = |name: String, f: &dyn Fn(&mut Vec<u8>)| {
+        let mut b = pkt.to_vec();
+        f(&mut b);
+        if b != pkt {
+            out.push((name, b));
+        }
+    };
+    let io = |i: usize| PATH_OFF + 4 + 8 * i;
+    let ho = |h: usize| PATH_OFF + 4 + 8 * ninf + 12 * h;
+    for h in 0..nh {
+        let o = ho(h);
+        for bit in [0x01u8, 0x02, 0x04, 0x80] {
+            put(format!("hop{h}.flags^{bit:#x}"), &|b| b[o] ^= bit);
+        }
+        put(format!("hop{h}.exp+1"), &|b| b[o + 1] = b[o + 1].wrapping_add(1));
+        put(format!("hop{h}.exp-1"), &|b| b[o + 1] = b[o + 1].wrapping_sub(1));
+        put(format!("hop{h}.cons_ingress^1"), &|b| b[o + 3] ^= 1);
+        put(format!("hop{h}.cons_ingress=0"), &|b| {
+            b[o + 2] = 0;
+            b[o + 3] = 0
+        });
+        put(format!("hop{h}.cons_egress^1"), &|b| b[o + 5] ^= 1);
+        put(format!("hop{h}.cons_egress=0"), &|b| {
+            b[o + 4] = 0;
+            b[o + 5] = 0
+        });
+        put(format!("hop{h}.swap-ingress-egress"), &|b| {
+            b.swap(o + 2, o + 4);
+            b.swap(o + 3, o + 5)
+        });
+        put(format!("hop{h}.mac[0]^1"), &|b| b[o + 6] ^= 1);
+        put(format!("hop{h}.mac[2]^1"), &|b| b[o + 8] ^= 1);
+        put(format!("hop{h}.mac[5]^0x80"), &|b| b[o + 11] ^= 0x80);
+    }
+    for i in 0..ninf {
+        let o = io(i);
+        for bit in [0x01u8, 0x02, 0x04] {
+            put(format!("info{i}.flags^{bit:#x}"), &|b| b[o] ^= bit);
+        }
+        put(format!("info{i}.rsv^1"), &|b| b[o + 1] ^= 1);
+        put(format!("info{i}.segid^1"), &|b| b[o + 3] ^= 1);
+        put(format!("info{i}.segid^0x8000"), &|b| b[o + 2] ^= 0x80);
+        put(format!("info{i}.timestamp+1"), &|b| {
+            let v = u32::from_be_bytes(b[o + 4..o + 8].try_into().unwrap()).wrapping_add(1);
+            b[o + 4..o + 8].copy_from_slice(&v.to_be_bytes())
+        });
+        put(format!("info{i}.timestamp-1"), &|b| {
+            let v = u32::from_be_bytes(b[o + 4..o + 8].try_into().unwrap()).wrapping_sub(1);
+            b[o + 4..o + 8].copy_from_slice(&v.to_be_bytes())
+        });
+    }
+    for v in 0..4u8 {
+        put(format!("curr_inf={v}"), &|b| b[PATH_OFF] = (b[PATH_OFF] & 0x3f) | (v << 6));
+    }
+    for v in (0..=nh as u8).chain([63u8]) {
+        put(format!("curr_hf={v}"), &|b| b[PATH_OFF] = (b[PATH_OFF] & 0xc0) | (v & 63));
+    }
+    put("meta.rsv^1".into(), &|b| b[PATH_OFF + 1] ^= 0x04);
+    for k in 0..3usize {
+        for (nm, f) in [("+1", 1i8), ("-1", -1i8), ("=0", 0i8)] {
+            put(format!("seg_len[{k}]{nm}"), &|b| {
+                let meta = u32::from_be_bytes(b[PATH_OFF..PATH_OFF + 4].try_into().unwrap());
+                let sh = 12 - 6 * k as u32;
+                let cur = (meta >> sh) & 63;
+                let new = match f {
+                    0 => 0,
+                    d => (cur as i32 + d as i32).rem_euclid(64) as u32,
+                };
+                let m2 = (meta & !(63 << sh)) | (new << sh);
+                b[PATH_OFF..PATH_OFF + 4].copy_from_slice(&m2.to_be_bytes());
+            });
+        }
+    }
+    for (a, n) in t.ases.iter().enumerate() {
+        put(format!("dst_ia=AS{a}"), &|b| b[12..20].copy_from_slice(&n.ia().to_be_bytes()));
+        put(format!("src_ia=AS{a}"), &|b| b[20..28].copy_from_slice(&n.ia().to_be_bytes()));
+    }
+    put("dst_ia=unknown".into(), &|b| b[12..20].copy_from_slice(&0x0009_ff00_0000_0999u64.to_be_bytes()));
+    put("src_ia=unknown".into(), &|b| b[20..28].copy_from_slice(&0x0009_ff00_0000_0999u64.to_be_bytes()));
+    put("dst_ia=wildcard".into(), &|b| b[12..20].copy_from_slice(&0u64.to_be_bytes()));
+    out
+}
+
+// ------------------------------------------------------------------------------------------
+// per-topology exploration
+// ------------------------------------------------------------------------------------------
+
+#[derive(Default)]
+pub struct TopoReport {
+    pub loc: Loc,
+    pub pieces: usize,
+    pub packets: [u64; 3],
+    pub valid: usize,
+    pub valid_shortcut: usize,
+    pub valid_peering: usize,
+    pub valid_3seg: usize,
+    pub corrupted: u64,
+    pub pair_mode_full: bool,
+    pub skipped: Option<String>,
+}
+
+fn link_sets(nlinks: usize) -> Vec<Vec<bool>> {
+    let mut v = vec![vec![false; nlinks]];
+    if nlinks <= 4 {
+        for m in 1u32..(1 << nlinks) {
+            v.push((0..nlinks).map(|i| m & (1 << i) != 0).collect());
+        }
+    } else {
+        for i in 0..nlinks {
+            let mut d = vec![false; nlinks];
+            d[i] = true;
+            v.push(d);
+        }
+    }
+    v
+}
+
+/// Injection points of a packet: (pointer position, AS, ingress interface).
+fn injections(t: &Topo, owners: &[AsIdx], positions: &[usize]) -> Vec<(usize, AsIdx, u16)> {
+    let mut v = vec![];
+    for &h in positions {
+        let o = owners[h];
+        v.push((h, o, 0u16));
+        for (ifid, _, _, _, _) in t.interfaces(o) {
+            v.push((h, o, ifid));
+        }
+        if h == 0 {
+            for a in 0..t.ases.len() {
+                if a != o {
+                    v.push((0, a, 0));
+                }
+            }
+        }
+    }
+    v
+}
+
+struct Made {
+    bytes: Vec<u8>,
+    owners: Vec<AsIdx>,
+    seg_start: Vec<usize>,
+}
+fn make(t: &Topo, ps: &[&Piece]) -> Made {
+    let bytes = build_packet(t, ps);
+    let mut owners = vec![];
+    let mut seg_start = vec![];
+    for p in ps {
+        seg_start.push(owners.len());
+        owners.extend(p.owners.iter().cloned());
+    }
+    Made { bytes, owners, seg_start }
+}
+
+/// Walk one made packet from all its injection points; returns (reached last hop anywhere, valid).
+fn explore_packet(env: &Env, loc: &mut Loc, m: &Made, positions: &[usize], origin: &dyn Fn() -> Value, valid_out: &mut Vec<(Vec<u8>, AsIdx, WalkOut)>) -> bool {
+    let mut reached = false;
+    let seg_of = |h: usize| m.seg_start.iter().rposition(|s| *s <= h).unwrap_or(0);
+    for (h, a, ifid) in injections(env.t, &m.owners, positions) {
+        let mut b = m.bytes.clone();
+        set_pointer(&mut b, seg_of(h) as u8, h as u8);
+        let natural = h == 0 && ifid == 0 && a == m.owners[0];
+        let o = || json!({"made_from": origin(), "pointer": h});
+        let w = walk(env, loc, a, ifid, &b, &o, false);
+        reached |= w.reached_last_hop;
+        if natural && w.r_delivered_at.is_some() {
+            valid_out.push((b, a, w));
+        }
+    }
+    reached
+}
+
+pub fn explore_topology(run: &vpc::Run, t: &Topo, levels: usize) -> TopoReport {
+    let mut rep = TopoReport::default();
+    let real = match vpc::catch(|| bridge::build_topology(t)) {
+        Ok(Ok(r)) => r,
+        Ok(Err(e)) => {
+            rep.skipped = Some(e);
+            return rep;
+        }
+        Err(p) => {
+            rep.skipped = Some(format!("panic: {p}"));
+            return rep;
+        }
+    };
+    let segs = refseg::beacon(t, BASE_TS);
+    let nsegs = segs.up_down.len() + segs.core.len();
+    let pieces = pieces_of(&segs);
+    rep.pieces = pieces.len();
+    let up = vec![false; t.links.len()];
+    let now0 = BASE_TS + 17 * nsegs as u32 + 5;
+    let env = Env { run, t, real: &real, down: &up, now: now0, verbose: false };
+    let valid: Mutex<Vec<(Vec<u8>, AsIdx, WalkOut)>> = Mutex::new(vec![]);
+    let total = Mutex::new(Loc::default());
+
+    // ---- level 1
+    let surv1: Vec<usize> = (0..pieces.len())
+        .into_par_iter()
+        .filter_map(|a| {
+            let mut loc = Loc::default();
+            let mut v = vec![];
+            let m = make(t, &[&pieces[a]]);
+            let pos: Vec<usize> = (0..m.owners.len()).collect();
+            let reached = explore_packet(&env, &mut loc, &m, &pos, &|| json!([pieces[a].describe()]), &mut v);
+            total.lock().unwrap().merge(loc);
+            valid.lock().unwrap().extend(v);
+            reached.then_some(a)
+        })
+        .collect();
+    rep.packets[0] = pieces.len() as u64;
+
+    // ---- level 2
+    let full = pieces.len() <= PAIR_FULL_LIMIT;
+    rep.pair_mode_full = full;
+    let firsts: Vec<usize> = if full { (0..pieces.len()).collect() } else { surv1.clone() };
+    let mut surv2: Vec<(usize, usize)> = vec![];
+    if levels >= 2 {
+        let res: Vec<Vec<(usize, usize)>> = firsts
+            .par_iter()
+            .map(|&a| {
+                let mut loc = Loc::default();
+                let mut v = vec![];
+                let mut s = vec![];
+                for b in 0..pieces.len() {
+                    let m = make(t, &[&pieces[a], &pieces[b]]);
+                    let pos: Vec<usize> = (0..m.owners.len()).collect();
+                    if explore_packet(&env, &mut loc, &m, &pos, &|| json!([pieces[a].describe(), pieces[b].describe()]), &mut v) {
+                        s.push((a, b));
+                    }
+                }
+                total.lock().unwrap().merge(loc);
+                valid.lock().unwrap().extend(v);
+                s
+            })
+            .collect();
+        rep.packets[1] = (firsts.len() * pieces.len()) as u64;
+        surv2 = res.into_iter().flatten().collect();
+    }
+
+    // ---- level 3
+    if levels >= 3 {
+        surv2.par_iter().for_each(|&(a, b)| {
+            let mut loc = Loc::default();
+            let mut v = vec![];
+            for c in 0..pieces.len() {
+                let m = make(t, &[&pieces[a], &pieces[b], &pieces[c]]);
+                let pos = [0, m.seg_start[2] - 1, m.seg_start[2]];
+                explore_packet(&env, &mut loc, &m, &pos, &|| json!([pieces[a].describe(), pieces[b].describe(), pieces[c].describe()]), &mut v);
+            }
+            total.lock().unwrap().merge(loc);
+            valid.lock().unwrap().extend(v);
+        });
+        rep.packets[2] = (surv2.len() * pieces.len()) as u64;
+    }
+
+    // ---- valid packets: clocks x link states, and single-field corruptions of every on-path state
+    let mut valid = valid.into_inner().unwrap();
+    valid.sort_by(|a, b| a.0.cmp(&b.0));
+    valid.dedup_by(|a, b| a.0 == b.0);
+    rep.valid = valid.len();
+    for (_, _, w) in &valid {
+        if w.saw_peering {
+            rep.valid_peering += 1;
+        }
+        if w.segments == 3 {
+            rep.valid_3seg += 1;
+        }
+    }
+    let lsets = link_sets(t.links.len());
+    let reals: Vec<ScionTopology> = lsets.iter().map(|d| bridge::with_links_down(&real, t, d)).collect();
+    let single_down: Vec<usize> = (0..lsets.len()).filter(|&i| lsets[i].iter().filter(|d| **d).count() == 1).collect();
+    let shortcut_count = Mutex::new(0usize);
+    let corrupted = Mutex::new(0u64);
+    valid.par_iter().for_each(|(pkt, src, _)| {
+        let mut loc = Loc::default();
+        let p = parse_path(pkt).expect("valid packet parses");
+        let t0 = p.infos.iter().map(|i| i.timestamp).max().unwrap();
+        let mut e = u64::MAX;
+        for (h, hop) in p.hops.iter().enumerate() {
+            let ts = p.infos[p.seg_of(h).unwrap()].timestamp;
+            e = e.min(refrouter::last_valid_second(ts, hop.exp_time));
+        }
+        let e = e as u32;
+        let clocks = [t0 - 1, t0, e - 1, e, e + 1];
+        // the reference walk at t0, links up: on-path states
+        let env0 = Env { run, t, real: &real, down: &up, now: t0, verbose: false };
+        let w0 = walk(&env0, &mut loc, *src, 0, pkt, &|| json!({"valid_packet": vpc::hex(pkt)}), true);
+        // a shortcut = cross-over at a non-core AS
+        if w0.saw_xover {
+            let mut sc = false;
+            for (a, ing, b) in &w0.r_states {
+                let st = refrouter::step(t, *a, *ing, b, t0, &|_| false);
+                if st.xover && !t.ases[*a].core {
+                    sc = true;
+                }
+            }
+            if sc {
+                *shortcut_count.lock().unwrap() += 1;
+            }
+        }
+        for (ci, &now) in clocks.iter().enumerate() {
+            for (li, d) in lsets.iter().enumerate() {
+                if ci == 1 && li == 0 {
+                    continue; // done above
+                }
+                let env = Env { run, t, real: &reals[li], down: d, now, verbose: false };
+                walk(&env, &mut loc, *src, 0, pkt, &|| json!({"valid_packet": vpc::hex(pkt), "clock": CLOCK_NAMES[ci]}), false);
+            }
+        }
+        let mut ncorr = 0u64;
+        for (k, (a, ing, bytes)) in w0.r_states.iter().enumerate() {
+            for (name, cb) in corruptions(t, bytes) {
+                ncorr += 1;
+                let o = || json!({"valid_packet": vpc::hex(pkt), "on_path_state": k, "corruption": name});
+                for &now in &clocks {
+                    let env = Env { run, t, real: &real, down: &up, now, verbose: false };
+                    walk(&env, &mut loc, *a, *ing, &cb, &o, false);
+                }
+                for &li in &single_down {
+                    let env = Env { run, t, real: &reals[li], down: &lsets[li], now: t0, verbose: false };
+                    walk(&env, &mut loc, *a, *ing, &cb, &o, false);
+                }
+            }
+        }
+        *corrupted.lock().unwrap() += ncorr;
+        total.lock().unwrap().merge(loc);
+    });
+    rep.valid_shortcut = shortcut_count.into_inner().unwrap();
+    rep.corrupted = corrupted.into_inner().unwrap();
+    rep.loc = total.into_inner().unwrap();
+    rep
+}
+
+// ------------------------------------------------------------------------------------------
+// entry point
+// ------------------------------------------------------------------------------------------
+
+fn quick_curated() -> Vec<Topo> {
+    let want = ["cur-shortcut-common-noncore", "cur-peering-leaf", "cur-peering-cross-isd"];
+    reftopo_enum::curated().into_iter().filter(|t| want.contains(&t.name.as_str())).collect()
+}
+
+pub fn run(args: &vpc::Args) -> ! {
+    vpc::quiet_panics();
+    if let Some(f) = &args.replay {
+        replay(args, f);
+    }
+    let run = vpc::Run::new(args);
+    let thorough = run.tier == vpc::Tier::Thorough;
+    let max_n = if thorough { 4 } else { 3 };
+    let mut topos: Vec<Topo> = vec![];
+    for n in 1..=max_n {
+        topos.extend(reftopo_enum::enumerate(n, 2));
+    }
+    let enumerated = topos.len();
+    if thorough {
+        topos.extend(reftopo_enum::curated().into_iter().filter(|t| t.name != "cur-repo-default-graph"));
+    } else {
+        topos.extend(quick_curated());
+    }
+    let ntopos = topos.len();
+    let reports: Vec<(String, TopoReport)> = topos.par_iter().map(|t| (t.name.clone(), explore_topology(&run, t, 3))).collect();
+
+    let mut states = 0u64;
+    let mut transitions = 0u64;
+    let mut walks = 0u64;
+    let (mut pk, mut valid, mut vs, mut vp, mut v3, mut corr) = ([0u64; 3], 0usize, 0usize, 0usize, 0usize, 0u64);
+    let mut skipped = vec![];
+    let mut pruned_pairs = vec![];
+    let mut outcomes: BTreeMap<String, u64> = BTreeMap::new();
+    for (name, r) in &reports {
+        if let Some(s) = &r.skipped {
+            skipped.push(json!({"topology": name, "why": s}));
+            continue;
+        }
+        states += r.loc.states.len() as u64;
+        transitions += r.loc.transitions;
+        walks += r.loc.walks;
+        for k in 0..3 {
+            pk[k] += r.packets[k];
+        }
+        valid += r.valid;
+        vs += r.valid_shortcut;
+        vp += r.valid_peering;
+        v3 += r.valid_3seg;
+        corr += r.corrupted;
+        if !r.pair_mode_full {
+            pruned_pairs.push(name.clone());
+        }
+        for (k, v) in &r.loc.outcomes {
+            *outcomes.entry(k.clone()).or_default() += v;
+        }
+    }
+    for (k, v) in &outcomes {
+        run.outcome_n(k, *v);
+    }
+    run.outcome_n("walk:valid-packets(delivered-by-reference)", valid as u64);
+    run.outcome_n("walk:valid-shortcut-packets", vs as u64);
+    run.outcome_n("walk:valid-peering-packets", vp as u64);
+    run.outcome_n("walk:valid-3-segment-packets", v3 as u64);
+    if !skipped.is_empty() {
+        run.violation("harness:pocketscion-rejects-reference-topology", "ScionTopologyBuilder refused a topology of the enumerator", json!({"skipped": skipped}));
+    }
+    let vacuous = valid == 0 || vs == 0 || vp == 0 || v3 == 0;
+    if vacuous {
+        vpc::machinery_failure(&format!("vacuous exploration: valid={valid} shortcut={vs} peering={vp} 3-segment={v3}"));
+    }
+    for (name, r) in reports.iter().take(3) {
+        run.sample(3, || json!({"topology": name, "pieces": r.pieces, "packets_per_level": r.packets, "valid": r.valid, "transitions": r.loc.transitions}));
+    }
+    let bound = format!(
+        "{} topologies (all R-topo shapes n<={} with core-link multiplicity<=2 in both interface numberings = {}, + {} curated); per topology all authentic pieces (runs 1..4, both orders, both ConsDir, peer-hop variants with/without Peering flag, SegID match/match-after-update/foreign); packets: {} 1-piece, {} 2-piece ({}), {} 3-piece (prefix carried to its last hop by some router); injected at every hop position x (owner AS x {{0, every interface}}) + position 0 at every AS; {} valid packets x 5 clocks x link sets (all subsets <=4 links, else singles); {} single-field corruptions of on-path states x (5 clocks + each single link down)",
+        ntopos,
+        max_n,
+        enumerated,
+        ntopos - enumerated,
+        pk[0],
+        pk[1],
+        if pruned_pairs.is_empty() { "all ordered pairs".to_string() } else { format!("all ordered pairs except on {:?}: first piece carried to its last hop", pruned_pairs) },
+        pk[2],
+        valid,
+        corr
+    );
+    run.finish(
+        "model_checking",
+        json!({
+            "states": states,
+            "transitions": transitions,
+            "traces_validated_against_impl": walks,
+            "exhaustive": true,
+            "bound": bound,
+            "topologies": ntopos,
+            "packets_per_level": pk,
+            "valid_packets": {"total": valid, "shortcut": vs, "peering": vp, "three_segment": v3},
+            "corrupted_states": corr,
+        }),
+        &[
+            "R-router (vpc::refrouter) is written from draft-dekater-scion-dataplane / scionproto router semantics; where the specification fixes no order of checks (two faults coexist) or no behaviour (future timestamp, router alert on a segment-change hop, one-hop non-peering segment) only accept-vs-refuse is compared",
+            "every AS is one border router owning all its interfaces (as in pocketscion's simulator); AS-internal transit between sibling routers is not modelled",
+            "packets carry a UDP payload; router-alert flags hand the packet to the router (terminal for the step) in both models",
+            "SCMP error quoting (does the error quote the packet as received) is recorded as obs:* outcomes, not judged: the property text does not state it",
+        ],
+    )
+}
+
+fn replay(args: &vpc::Args, f: &std::path::Path) -> ! {
+    let v = vpc::read_replay(f);
+    let w = &v["witness"];
+    let t = bridge::topo_from_json(&w["topology"]).unwrap_or_else(|e| vpc::machinery_failure(&format!("replay topology: {e}")));
+    let real = bridge::build_topology(&t).unwrap_or_else(|e| vpc::machinery_failure(&format!("replay topology build: {e}")));
+    let mut down = vec![false; t.links.len()];
+    for d in w["links_down"].as_array().cloned().unwrap_or_default() {
+        down[d.as_u64().unwrap() as usize] = true;
+    }
+    let real = bridge::with_links_down(&real, &t, &down);
+    let pkt = vpc::unhex(w["packet"].as_str().unwrap_or(""));
+    let start = w["inject"]["as"].as_u64().unwrap_or(0) as usize;
+    let ingress = w["inject"]["ingress"].as_u64().unwrap_or(0) as u16;
+    let now = w["now"].as_u64().unwrap_or(0) as u32;
+    println!("REPLAY {} class={}\n  topology {} ({} ASes, {} links), inject at AS{start} ingress {ingress}, now {now}, links down {:?}\n  origin: {}", f.display(), v["class"], t.name, t.ases.len(), t.links.len(), w["links_down"], w["origin"]);
+    for (i, a) in t.ases.iter().enumerate() {
+        println!("  AS{i}: {}", ia_str(&t, i));
+        let _ = a;
+    }
+    for l in &t.links {
+        println!("  link AS{}#{} -- AS{}#{} {:?}", l.a, l.a_if, l.b, l.b_if, l.kind);
+    }
+    // the replay run records into a scratch Run so that nothing under /verif/replays is overwritten
+    let a2 = vpc::Args { prop: args.prop.clone(), tier: args.tier, seed: args.seed, replay: None, extra: vec![] };
+    unsafe { std::env::set_var("VERIF_ROOT", "/root/scratch/c13-replay-out") };
+    let run = vpc::Run::new(&a2);
+    let env = Env { run: &run, t: &t, real: &real, down: &down, now, verbose: true };
+    let mut loc = Loc::default();
+    let out = walk(&env, &mut loc, start, ingress, &pkt, &|| json!("replay"), false);
+    println!("REPLAY-RESULT steps={} reference-final={} delivered-by-reference={:?} divergences={}", out.steps, out.r_final, out.r_delivered_at, run.violation_count());
+    let _ = std::fs::remove_dir_all("/root/scratch/c13-replay-out");
+    std::process::exit(if run.violation_count() > 0 { 1 } else { 0 })
+}
+
+#[allow(dead_code)]
+fn _unused(_: &RSegment, _: &Event) {}
